@@ -152,6 +152,11 @@ def headers():
 	o.append('def tspecialsTable : List Bool := [' + ', '.join('true' if HeaderElement.RE_TSPECIALS.search(bytes([b])) else 'false' for b in range(256)) + ']')
 	o.append('def reSplit : List UInt8 := %s' % lbytes(HeaderElement.RE_SPLIT.pattern))
 	o.append('def reParams : List UInt8 := %s' % lbytes(HeaderElement.RE_PARAMS.pattern))
+	from httoop.header.messaging import Host
+	# Host: the character class of RE_HOSTNAME over the 256 Latin-1 characters, and the pattern of HOSTPORT
+	o.append('def hostnameCharTable : List Bool := [' + ', '.join('true' if Host.RE_HOSTNAME.match(chr(b)) else 'false' for b in range(256)) + ']')
+	o.append('def hostnameTwoChars : Bool := %s' % ('true' if all(bool(Host.RE_HOSTNAME.match(a + b)) == (bool(Host.RE_HOSTNAME.match(a)) and bool(Host.RE_HOSTNAME.match(b))) for a in map(chr, range(256)) for b in u'a?# \x00\xff') else 'false'))
+	o.append('def hostportRe : List UInt8 := %s' % lbytes(Host.HOSTPORT.pattern.encode('latin-1')))
 	o.append('def trailerForbidden : List (List UInt8) := [' + ', '.join(lbytes(x.encode()) for x in Trailer.forbidden_headers) + ']')
 	return o
 
